@@ -62,7 +62,15 @@ fn feed_collect<const N: usize>(sink: u8) {
     let n = nd::range(0, N);
     nd::cover!(n == N, "full sequence");
     nd::cover!(n == 0, "empty sequence");
-    let mut v: Vec<u8> = Vec::with_capacity(N);
+    // the collecting vector may already hold something (results of an earlier call): collecting APPENDS
+    let mut v: Vec<u8> = Vec::with_capacity(N + 1);
+    let pre: bool = nd::any();
+    let pre_val: u8 = nd::any();
+    nd::cover!(pre, "the vector already holds an element");
+    if pre {
+        v.push(pre_val);
+    }
+    let off = if pre { 1 } else { 0 };
     let ret = match sink {
         0 => {
             let cb: OpaqueCallback<u8> = (&mut v).into();
@@ -74,10 +82,13 @@ fn feed_collect<const N: usize>(sink: u8) {
         }
     };
     assert!(ret == n);
-    assert!(v.len() == n);
+    assert!(v.len() == n + off, "what was collected before is kept");
+    if pre {
+        assert!(v[0] == pre_val);
+    }
     let mut j = 0;
     while j < n {
-        assert!(v[j] == items[j]);
+        assert!(v[j + off] == items[j]);
         j += 1;
     }
 }
